@@ -391,6 +391,69 @@ def bounded(pr):
             if bad and len(viol) < 3:
                 viol.append({'what': '%s with supplied (non-ideal) hydrogens, --keep-protons, pose %r + %r: %s' % (name, P_, t, bad[:2]),
                              'replay': None})
+    # a LARGE structure (four copies of the 1HPX dimer side by side, 6064 heavy atoms - code paths gated on size), moved into the
+    # negative octant and turned: heavy-atom quantities exact, pKa within rounding
+    big = []
+    prot = [l for l in native.pdb_lines('1HPX') if l[:6] == 'ATOM  ']
+    for k, (ca, cb) in enumerate((('A', 'B'), ('C', 'D'), ('E', 'F'), ('G', 'H'))):
+        for l in prot:
+            big.append(l[:21] + (ca if l[21] == 'A' else cb) + l[22:30] + '%8.3f' % (float(l[30:38]) + 80.0 * k) + l[38:])
+        big.append('TER\n')
+    try:
+        ref_big = native.record(native.run_text(big))
+        for P_, t in ((Ps[0], (-400.0, -150.0, -90.0)), (Ps[7], (-35.5, 20.25, -60.125))):
+            ev += 1
+            classes.add(('large structure', P_))
+            moved = []
+            for l in big:
+                if l[:6] == 'ATOM  ':
+                    w = C17.apply(P_, [float(l[30:38]), float(l[38:46]), float(l[46:54])])
+                    l = l[:30] + '%8.3f%8.3f%8.3f' % (w[0] + t[0], w[1] + t[1], w[2] + t[2]) + l[54:]
+                moved.append(l)
+            got = native.record(native.run_text(moved))
+            bad = native.diff_records(ref_big, got, tol=1e-9, keys=('evol', 'buried', 'nvol', 'type'), dets=False)
+            bad += native.diff_records(ref_big, got, tol=0.02, keys=('pka',), dets=False)
+            if bad and len(viol) < 3:
+                viol.append({'what': 'four copies of 1HPX (6064 heavy atoms), pose %r + %r: %s' % (P_, t, bad[:2]), 'replay': None})
+    except Exception as e:    # noqa
+        viol.append({'what': 'large structure: %s: %s' % (type(e).__name__, e), 'replay': None})
+    # the rotation used to place ARG / ASN / GLN / HIS ... hydrogens turns with the structure: rot(theta, P a, P v) == P rot(theta, a, v)
+    # for every sign / zero pattern of the axis (planes that contain a coordinate axis exactly - idealised or model-built coordinates)
+    import importlib
+    va = importlib.import_module('propka.vector_algebra')
+    ev_r, bad_r = 0, []
+    for sx in (-1, 0, 1):
+        for sy in (-1, 0, 1):
+            for sz in (-1, 0, 1):
+                if (sx, sy, sz) == (0, 0, 0):
+                    continue
+                for mag in ((1.0, 1.0, 1.0), (0.3, 2.0, 1.7)):
+                    a = (sx * mag[0], sy * mag[1], sz * mag[2])
+                    for th in (2.0943951023931953, -1.1):
+                        for v in ((1.0, 1.0, 0.3), (-0.7, 0.4, 1.9)):
+                            try:
+                                r0 = va.rotate_vector_around_an_axis(th, va.Vector(*a), va.Vector(*v))
+                                r0 = (r0.x, r0.y, r0.z)
+                            except Exception as e:    # noqa
+                                bad_r.append('axis %r: %s' % (a, type(e).__name__))
+                                continue
+                            for P_ in Ps:
+                                ev_r += 1
+                                pa, pv = C17.apply(P_, list(a)), C17.apply(P_, list(v))
+                                try:
+                                    r1 = va.rotate_vector_around_an_axis(th, va.Vector(*pa), va.Vector(*pv))
+                                    got = (r1.x, r1.y, r1.z)
+                                except Exception as e:    # noqa
+                                    got = None
+                                want = C17.apply(P_, list(r0))
+                                if got is None or max(abs(g - w) for g, w in zip(got, want)) > 1e-9:
+                                    if len(bad_r) < 3:
+                                        bad_r.append('rotate_vector_around_an_axis(%r, P%r, P%r) = %r, P applied to the unmoved result = %r (P = %r)'
+                                                     % (th, a, v, got, want, P_))
+    ev += ev_r
+    classes.add('rotation helper turns with the structure')
+    if bad_r:
+        viol.append({'what': 'hydrogen-placing rotation is not equivariant: %s' % bad_r[:2], 'replay': None})
     # an amino-acid structure with a chain break: the nitrogen after the gap has one neighbour only (known finding D16)
     ev += 1
     classes.add('chain break')
